@@ -6,6 +6,10 @@ import json, os, subprocess, sys, time
 
 WT = "/tmp/seed-mut"
 PROPS = [f"C{i:02d}" for i in range(1, 21)]
+
+def prop_of(mid):
+    # r2-C05-a -> C05
+    return [x for x in mid.split('-') if x.startswith('C')][0]
 ENV = dict(os.environ, SEED_REPO=WT, CARGO_NET_OFFLINE="true", RUST_BACKTRACE="0", VERIF_SEED=os.environ.get("VERIF_SEED", "20260930"))
 
 def sh(cmd, **kw):
